@@ -1,4 +1,5 @@
 import Ekit.Props.C07
+import Ekit.Props.C07HW
 #print axioms c07_abq_inv
 #print axioms c07_abq_capacity
 #print axioms c07_abq_mutual_exclusion
@@ -29,3 +30,6 @@ import Ekit.Props.C07
 #print axioms c07_skel_NewConcurrentLinkedBlockingQueue
 #print axioms c07_skel_cond_broadcast
 #print axioms c07_skel_cond_signalCh
+-- the same statements in the classical Herlihy–Wing form (Ekit/Conc/HerlihyWing*.lean)
+#print axioms Ekit.Props.HWForms.c07_abq_hw_linearizable
+#print axioms Ekit.Props.HWForms.c07_lbq_hw_linearizable
